@@ -299,6 +299,17 @@ def Table.modelConfinedIn (T : Table) (SC SF : Nat) : Bool :=
 
 def Table.modelConfinedB (T : Table) : Bool := T.modelConfinedIn (T.reach .controller) (T.reach .filter)
 
+/-- the pseudo-member standing for the state of the user's filter touched by its hooks (`initialization_step`,
+    `filtering_step`, `run_condition` and their overriders in `SIS`, `Logger::log`) -/
+def hookStateFields : List (Nat × Nat) := [ (name% "user", name% "hook_state") ]
+
+/-- the members named exist, are touched by the functions in `SF` and by none in `SC` -/
+def Table.confinedIn (T : Table) (names : List (Nat × Nat)) (SC SF : Nat) : Bool :=
+  (T.fieldIds names).length == names.length &&
+  (T.fieldIds names).all fun f => T.controllerFreeIn SC f && !(T.rowsOn SF f).isEmpty
+
+def Table.hooksConfinedB (T : Table) : Bool := T.confinedIn hookStateFields (T.reach .controller) (T.reach .filter)
+
 /-- (function creating a thread, function handed to `std::thread`) for every such place in the library -/
 def Table.spawns (T : Table) : List (Nat × Nat) :=
   (T.calls.filter fun c => c.kind == .spawn).map fun c =>
